@@ -62,6 +62,8 @@ PAYLOADS = [
     "lambda x: VERIF_CANARY()", "re.match(VERIF_CANARY(), '')", "self._regexp(VERIF_CANARY())", "<>'+str(VERIF_CANARY())+'", ">='+VERIF_CANARY()+'",
     "<>it's", ">=o'clock", "='", "<'", "*'+VERIF_CANARY()+'*", "?' + VERIF_CANARY() + '?", "~*' + VERIF_CANARY() + '",
     '"""', '""";VERIF_CANARY();"""', 'q"""q', '"""+VERIF_CANARY()+"""', '"', '""', '" + VERIF_CANARY() + "', '\\"""',
+    "1 + VERIF_CANARY()", "1 if VERIF_CANARY() else 7", "0 or VERIF_CANARY()", "12 ;VERIF_CANARY()", "3.5 and VERIF_CANARY()", "7 + 41", "2 ** 10",
+    "1\nVERIF_CANARY()", "007", "1_000", "0x10", "1e3", "5 # x",
     "{titles}", "{functions}", "{sheets_size}", "{{titles}}", "a'+str(VERIF_CANARY())+'b", 'a"+str(VERIF_CANARY())+"b', "_xlfn.", "_xlws.", "_xlfn.IFS(1,2)",
     "x_xlfn.y", "📊", "𝒳 = 𝒴", "\\ud83d", "\\U0001F4CA",
     "it's", "'", "''", "'''", "a'b'c", "\\\\", "{", "}", "{}", "%", "%s", "#", "# comment", "a\nb", "\t", " ", "' '", "None", "True", "x)", "(", "f(x)",
